@@ -311,3 +311,219 @@ Proof.
   - rewrite new_is_calendar_arithmetic by exact E. unfold py_datetime. destruct (valid_fields _); discriminate.
   - rewrite new_rejects by exact E. discriminate.
 Qed.
+
+(* ------------------------------------------------------------------ day numbers vs. the day-by-day calendar *)
+Lemma month_cases m : 1 <= m <= 12 ->
+  m = 1 \/ m = 2 \/ m = 3 \/ m = 4 \/ m = 5 \/ m = 6 \/ m = 7 \/ m = 8 \/ m = 9 \/ m = 10 \/ m = 11 \/ m = 12.
+Proof. lia. Qed.
+
+Ltac month_split H := apply month_cases in H;
+  repeat (destruct H as [H|H]; [subst|]); [..|subst].
+
+Lemma dbm_succ y m : 1 <= m <= 11 -> dbm (is_leap y) (m + 1) = dbm (is_leap y) m + month_days y m.
+Proof.
+  intros H. assert (H' : 1 <= m <= 12) by lia. unfold month_days.
+  month_split H'; try lia; destruct (is_leap y); reflexivity.
+Qed.
+
+Lemma dbm_12 y : dbm (is_leap y) 12 + 31 = if is_leap y then 366 else 365.
+Proof. destruct (is_leap y); reflexivity. Qed.
+
+Lemma dfc_next c : valid_date c = true -> days_from_civil (next_day c) = days_from_civil c + 1.
+Proof.
+  destruct c as [[y m] d]. rewrite valid_date_iff. intros [Hm Hd]. unfold next_day.
+  destruct (Z.ltb_spec d (month_days y m)).
+  - unfold days_from_civil. lia.
+  - assert (d = month_days y m) by lia. destruct (Z.ltb_spec m 12).
+    + unfold days_from_civil. rewrite dbm_succ by lia. lia.
+    + assert (m = 12) by lia. subst m. unfold days_from_civil. rewrite dby_succ.
+      pose proof (dbm_12 y). replace (month_days y 12) with 31 in * by reflexivity.
+      replace (dbm (is_leap (y + 1)) 1) with 0 by (destruct (is_leap (y + 1)); reflexivity). lia.
+Qed.
+
+Lemma dfc_prev c : valid_date c = true -> days_from_civil (prev_day c) = days_from_civil c - 1.
+Proof.
+  intros H. pose proof (dfc_next (prev_day c) (prev_day_valid c H)) as E. rewrite next_prev in E by exact H. lia.
+Qed.
+
+(* the closed-form day number of the date reached by stepping k single days *)
+Lemma dfc_shift k c : valid_date c = true -> days_from_civil (shift_days k c) = days_from_civil c + k.
+Proof.
+  intros H. induction k using Z.peano_ind.
+  - rewrite shift_0. lia.
+  - replace (Z.succ k) with (k + 1) by lia. rewrite shift_succ by exact H.
+    rewrite dfc_next by (apply shift_valid, H). lia.
+  - replace (Z.pred k) with (k - 1) by lia. rewrite shift_pred by exact H.
+    rewrite dfc_prev by (apply shift_valid, H). lia.
+Qed.
+
+Lemma year_of_days_spec n : dby (year_of_days n) <= n < dby (year_of_days n + 1).
+Proof.
+  unfold year_of_days. set (q := 400 * n / 146097).
+  assert (Hq : 146097 * q <= 400 * n < 146097 * q + 146097) by (unfold q; dm; lia).
+  destruct (Z.ltb_spec n (dby (q + 1))) as [H1|H1].
+  - replace (q + 1 - 1 + 1) with (q + 1) by lia. split; [|exact H1].
+    unfold dby. dm. lia.
+  - destruct (Z.leb_spec (dby (q + 1 + 1)) n) as [H2|H2].
+    + split; [exact H2|]. unfold dby. dm. lia.
+    + lia.
+Qed.
+
+Lemma year_of_days_unique n y : dby y <= n < dby (y + 1) -> year_of_days n = y.
+Proof.
+  intros H. pose proof (year_of_days_spec n) as S. set (y' := year_of_days n) in *.
+  assert (y' < y + 1) by (apply dby_lt_inv; lia). assert (y < y' + 1) by (apply dby_lt_inv; lia). lia.
+Qed.
+
+Ltac eval_closed_in H :=
+  match type of H with _ <= _ <= ?e => let v := eval vm_compute in e in change e with v in H end.
+Ltac eval_dbm :=
+  repeat match goal with |- context [dbm ?b ?m] => let v := eval vm_compute in (dbm b m) in change (dbm b m) with v end.
+Ltac split_ltb :=
+  repeat match goal with |- context [if ?a <? ?b then _ else _] => destruct (Z.ltb_spec a b); try lia end.
+
+Lemma md_of_doy_dbm y m d : 1 <= m <= 12 -> 1 <= d <= month_days y m ->
+  md_of_doy (is_leap y) (dbm (is_leap y) m + (d - 1)) = (m, d).
+Proof.
+  intros Hm Hd. unfold month_days in Hd. destruct (is_leap y);
+  month_split Hm; eval_closed_in Hd; eval_dbm; unfold md_of_doy; cbv beta iota zeta; split_ltb; f_equal; lia.
+Qed.
+
+Lemma civil_of_dfc c : valid_date c = true -> civil_from_days (days_from_civil c) = c.
+Proof.
+  destruct c as [[y m] d]. rewrite valid_date_iff. intros [Hm Hd].
+  unfold civil_from_days, days_from_civil.
+  replace (dby y + dbm (is_leap y) m + (d - 1) - EPOCH_DAYS + EPOCH_DAYS) with (dby y + (dbm (is_leap y) m + (d - 1))) by lia.
+  assert (Hy : year_of_days (dby y + (dbm (is_leap y) m + (d - 1))) = y).
+  { apply year_of_days_unique. rewrite dby_succ.
+    assert (0 <= dbm (is_leap y) m + (d - 1) < if is_leap y then 366 else 365).
+    { unfold month_days in Hd. destruct (is_leap y); month_split Hm; eval_closed_in Hd; eval_dbm; lia. }
+    lia. }
+  rewrite Hy. replace (dby y + (dbm (is_leap y) m + (d - 1)) - dby y) with (dbm (is_leap y) m + (d - 1)) by lia.
+  rewrite md_of_doy_dbm by assumption. reflexivity.
+Qed.
+
+Lemma md_of_doy_inv y k : 0 <= k < (if is_leap y then 366 else 365) ->
+  1 <= fst (md_of_doy (is_leap y) k) <= 12 /\
+  1 <= snd (md_of_doy (is_leap y) k) <= month_days y (fst (md_of_doy (is_leap y) k)) /\
+  dbm (is_leap y) (fst (md_of_doy (is_leap y) k)) + (snd (md_of_doy (is_leap y) k) - 1) = k.
+Proof.
+  intros Hk. unfold month_days. destruct (is_leap y); unfold md_of_doy; cbv beta iota zeta;
+  repeat match goal with |- context [if ?a <? ?b then _ else _] => destruct (Z.ltb_spec a b) end;
+  cbn [fst snd]; eval_dbm;
+  repeat match goal with |- context [?a =? ?b] => let v := eval vm_compute in (a =? b) in change (a =? b) with v end;
+  cbn [orb]; cbv beta iota; lia.
+Qed.
+
+Lemma dfc_of_civil n : days_from_civil (civil_from_days n) = n /\ valid_date (civil_from_days n) = true.
+Proof.
+  unfold civil_from_days. pose proof (year_of_days_spec (n + EPOCH_DAYS)) as S.
+  set (y := year_of_days (n + EPOCH_DAYS)) in *. rewrite dby_succ in S.
+  pose proof (md_of_doy_inv y (n + EPOCH_DAYS - dby y)) as I.
+  destruct (md_of_doy (is_leap y) (n + EPOCH_DAYS - dby y)) as [m d]. cbn [fst snd] in I.
+  destruct I as [Hm [Hd Hk]]; [lia|]. split.
+  - unfold days_from_civil. lia.
+  - apply valid_date_iff. lia.
+Qed.
+
+(* the spec calendar and the closed forms agree: stepping k days = converting, adding k, converting back *)
+Theorem shift_is_day_number k c : valid_date c = true -> shift_days k c = civil_from_days (days_from_civil c + k).
+Proof. intros H. rewrite <- dfc_shift by exact H. symmetry. apply civil_of_dfc, shift_valid, H. Qed.
+
+(* ------------------------------------------------------------------ values <-> fields; the getters *)
+Lemma valid_fields_iff f : valid_fields f = true <->
+  (1 <= f_year f <= 9999 /\ valid_date (f_year f, f_month f, f_day f) = true /\ 0 <= f_hour f < 24 /\
+   0 <= f_minute f < 60 /\ 0 <= f_second f < 60 /\ 0 <= f_us f < 1000000).
+Proof.
+  unfold valid_fields. generalize (valid_date (f_year f, f_month f, f_day f)). intros b.
+  rewrite !andb_true_iff. rewrite !Z.leb_le, !Z.ltb_lt. tauto.
+Qed.
+
+Lemma tod_decomp D h mi s us : 0 <= h < 24 -> 0 <= mi < 60 -> 0 <= s < 60 -> 0 <= us < 1000000 ->
+  let w := D * US_DAY + ((h * 60 + mi) * 60 + s) * US_SEC + us in
+  w / US_DAY = D /\ (w mod US_DAY) / US_HOUR = h /\ (w mod US_DAY) / US_MIN mod 60 = mi /\
+  (w mod US_DAY) / US_SEC mod 60 = s /\ (w mod US_DAY) mod US_SEC = us.
+Proof.
+  intros Hh Hmi Hs Hus. cbv zeta. set (tod := ((h * 60 + mi) * 60 + s) * US_SEC + us).
+  assert (Ht : 0 <= tod < US_DAY) by (unfold tod, US_DAY, US_SEC; lia).
+  replace (D * US_DAY + ((h * 60 + mi) * 60 + s) * US_SEC + us) with (tod + D * US_DAY) by (unfold tod; lia).
+  rewrite Z.div_add, Z_mod_plus_full by (unfold US_DAY; lia).
+  rewrite Z.div_small, Z.mod_small by exact Ht.
+  split; [lia|]. unfold tod, US_DAY, US_HOUR, US_MIN, US_SEC in *.
+  split; [dm; lia|]. split; [dm; lia|]. split; dm; lia.
+Qed.
+
+Theorem fields_of_fields f : valid_fields f = true -> fields (of_fields f) = f.
+Proof.
+  rewrite valid_fields_iff. intros [Hy [Hd [Hh [Hmi [Hs Hus]]]]].
+  destruct f as [y m d h mi s us]. cbn [f_year f_month f_day f_hour f_minute f_second f_us] in *.
+  unfold fields, of_fields. cbn [f_year f_month f_day f_hour f_minute f_second f_us].
+  destruct (tod_decomp (days_from_civil (y, m, d)) h mi s us Hh Hmi Hs Hus) as [E1 [E2 [E3 [E4 E5]]]].
+  rewrite E1, E2, E3, E4, E5. rewrite civil_of_dfc by exact Hd. reflexivity.
+Qed.
+
+Theorem of_fields_fields w : of_fields (fields w) = w.
+Proof.
+  unfold fields. destruct (dfc_of_civil (w / US_DAY)) as [E _].
+  destruct (civil_from_days (w / US_DAY)) as [[y m] d]. unfold of_fields.
+  cbn [f_year f_month f_day f_hour f_minute f_second f_us]. rewrite E.
+  unfold US_DAY, US_HOUR, US_MIN, US_SEC. dm. lia.
+Qed.
+
+Lemma dby_1 : dby 1 = 0. Proof. reflexivity. Qed.
+
+Theorem in_range_fields w : in_range w = valid_fields (fields w).
+Proof.
+  apply eq_true_iff_eq. rewrite valid_fields_iff. unfold fields.
+  destruct (dfc_of_civil (w / US_DAY)) as [E V].
+  unfold civil_from_days in *. pose proof (year_of_days_spec (w / US_DAY + EPOCH_DAYS)) as S.
+  set (y := year_of_days (w / US_DAY + EPOCH_DAYS)) in *.
+  destruct (md_of_doy (is_leap y) (w / US_DAY + EPOCH_DAYS - dby y)) as [m d].
+  cbn [f_year f_month f_day f_hour f_minute f_second f_us].
+  assert (Hy : 1 <= y <= 9999 <-> dby 1 <= w / US_DAY + EPOCH_DAYS < dby 10000).
+  { split.
+    - intros [A B]. pose proof (dby_mono 1 y A). pose proof (dby_mono (y + 1) 10000 ltac:(lia)). lia.
+    - intros [A B]. assert (1 < y + 1) by (apply dby_lt_inv; lia). assert (y < 10000) by (apply dby_lt_inv; lia). lia. }
+  assert (Hr : in_range w = true <-> dby 1 <= w / US_DAY + EPOCH_DAYS < dby 10000).
+  { unfold in_range, MIN_US, MAX_US. rewrite dby_1. generalize (dby 10000). intros T. unfold US_DAY, EPOCH_DAYS. dm. nia. }
+  rewrite Hr, Hy. unfold US_DAY, US_HOUR, US_MIN, US_SEC. split.
+  - intros H. repeat split; try tauto; try exact V; dm; lia.
+  - tauto.
+Qed.
+
+Lemma py_datetime_ok f w : py_datetime f = DOk w -> valid_fields f = true /\ w = of_fields f /\ fields w = f /\ in_range w = true.
+Proof.
+  unfold py_datetime. destruct (valid_fields f) eqn:V; [|discriminate]. intros E. injection E as <-.
+  split; [reflexivity|]. split; [reflexivity|]. split; [apply fields_of_fields, V|].
+  rewrite in_range_fields, fields_of_fields by exact V. exact V.
+Qed.
+
+(* THEOREM (getters): the seven getters read back the normalised components of a datetimeNew result *)
+Theorem getters_of_new y mo d h mi s ms w :
+  datetime_new y mo d h mi s ms = DOk w ->
+  let f := dn_spec_fields y mo d h mi s ms in
+  get_year w = f_year f /\ get_month w = f_month f /\ get_day w = f_day f /\ get_hour w = f_hour f /\
+  get_minute w = f_minute f /\ get_second w = f_second f /\
+  get_millisecond w = dn_total_ms d h mi s ms mod 1000 /\ in_range w = true.
+Proof.
+  intros E. destruct (dtnew_args_ok y mo d h mi s ms) eqn:A; [|rewrite new_rejects in E by exact A; discriminate].
+  rewrite new_is_calendar_arithmetic in E by exact A.
+  apply py_datetime_ok in E. destruct E as [_ [_ [F R]]]. cbv zeta.
+  unfold get_year, get_month, get_day, get_hour, get_minute, get_second, get_millisecond. rewrite F.
+  repeat split; try exact R.
+  unfold dn_spec_fields. destruct (shift_days _ _) as [[y' m'] d'].
+  cbn [f_us]. dm. lia.
+Qed.
+
+(* ------------------------------------------------------------------ datetime +/- milliseconds *)
+Lemma round_half_away_exact n : round_half_away_div (n * 1000) 1000 = n.
+Proof. unfold round_half_away_div. destruct (Z.leb_spec 0 (n * 1000)); dm; lia. Qed.
+
+Theorem add_sub_exact w n w' : dt_add_ms w n = DOk w' -> dt_sub_ms w' w = n.
+Proof.
+  unfold dt_add_ms, dt_sub_ms. destruct (in_range (w + n * 1000)); [|discriminate].
+  intros E. injection E as <-. replace (w + n * 1000 - w) with (n * 1000) by lia. apply round_half_away_exact.
+Qed.
+
+Theorem add_total w n : dt_add_ms w n = DOk (w + n * 1000) \/ (dt_add_ms w n = DExc /\ in_range (w + n * 1000) = false).
+Proof. unfold dt_add_ms. destruct (in_range (w + n * 1000)); auto. Qed.
